@@ -2,6 +2,8 @@ import argparse, json, os, shutil, subprocess, sys, time, random
 from vlib import *
 import families
 
+NON_SEMANTIC = {"C05", "C06", "C08", "C09", "C10"}
+
 def concerns(ev, verdict):
     """Which properties a failing trace line is a violation of (DESIGN.md 5.6)."""
     fam = ev.get("fam", "?")
@@ -10,7 +12,8 @@ def concerns(ev, verdict):
     s = set()
     sem = parts[0]
     if sem == "no" or sem.startswith("dev:"):
-        s.add(fam)
+        if fam not in NON_SEMANTIC:
+            s.add(fam)
         if out.get("o") in ("panic", "timeout", "crash"):
             s.add("C09" if ev.get("ev") != "Compile" else "C08")
         if out.get("o") in ("unproj", "bad"):
@@ -20,7 +23,7 @@ def concerns(ev, verdict):
             s.add("C07")
         elif p in ("ast-modified", "string-changed", "not-repeatable"):
             s.add("C05")
-        elif p in ("not-json", "evalbytes-differs"):
+        elif p in ("not-json", "evalbytes-differs", "undefined-mismatch"):
             s.add("C10")
     return s
 
